@@ -7,7 +7,10 @@ Value types (all subclasses of SArr so that the engine's array dispatch, loop ha
   M2      (n, m) matrix, both extents symbolic: z3 Array (Int, Int) -> elem
   Points  (n, 3) point cloud (three coordinate columns)       [not an SArr: immutable input]
   Resh / PairDiff   `P.reshape((-1,1,3))`, `P.reshape((1,-1,3))` and their difference
-  Masked  numpy.ma.array(data, mask=mask);  FlatIdx  the flat position returned by Masked.argmin()
+  Masked  numpy.ma.array(data, mask=mask);  FlatIdx  the flat position returned by Masked.argmin() / M2.argmin()
+  PointsT  `P.T`;  SqDiff  `(P[:, None] - P[None, :]) ** 2`;  FP  static rounding-error record of a real matrix expression (see the class)
+Matrix reductions / selections: M.max(), M.min(), M.argmin(), np.where(C, x, y), np.sqrt(M), np.maximum(M, c); Gram idiom: np.einsum('ij,ij->i', P, P),
+P @ P.T, c * P, v[:, None] + v[None, :].  Cross-check against numpy: tools/xcheck_ext_C17.py.
 
 Every model records what it assumes with eng.assumptions.add("numpy-model(C17): ...").
 """
